@@ -68,7 +68,12 @@ def run_reload(wk, nhup, new_workers, seed, bind="tcp"):
         want = 2
         for k in range(nhup):
             want = new_workers if k == nhup - 1 else 2 + (k % 2)
-            s.rewrite_config('workers = %d\nraw_env = ["VERIF_MARKER=gen%d"]\n' % (want, k + 1))
+            if want == 0:
+                # the setting is removed from the file: the new configuration is the built-in default (1 worker)
+                want = 1
+                s.rewrite_config('raw_env = ["VERIF_MARKER=gen%d"]\n' % (k + 1))
+            else:
+                s.rewrite_config('workers = %d\nraw_env = ["VERIF_MARKER=gen%d"]\n' % (want, k + 1))
             hups.append(time.time())
             s.signal(signal.SIGHUP)
             time.sleep(0.9)
@@ -109,10 +114,10 @@ def run_reload(wk, nhup, new_workers, seed, bind="tcp"):
 
 def reload_side(ctx):
     plan = [("sync", 1, 3, "tcp"), ("gthread", 2, 1, "localhost"), ("gevent", 1, 3, "unix"), ("gevent", 1, 2, "tcp2"),
-            ("gthread", 1, 2, "unix"), ("sync", 2, 2, "unix")] if ctx.quick else \
+            ("gthread", 1, 2, "unix"), ("sync", 2, 2, "unix"), ("sync", 2, 0, "tcp")] if ctx.quick else \
         [(wk, n, w, b) for wk in ("sync", "gthread", "gevent", "eventlet")
-         for (n, w, b) in ((1, 3, "tcp"), (2, 1, "localhost"), (3, 2, "unix"), (1, 2, "tcp2"))]
-    results = _parallel(plan, lambda a, i: run_reload(a[0], a[1], a[2], ctx.seed * 10 + i, bind=a[3]), par=6)
+         for (n, w, b) in ((1, 3, "tcp"), (2, 1, "localhost"), (3, 2, "unix"), (1, 2, "tcp2"), (2, 0, "tcp"))]
+    results = _parallel(plan, lambda a, i: run_reload(a[0], a[1], a[2], ctx.seed * 10 + i, bind=a[3]), par=7)
     traces = [r[0] for r in results]
     metas = [r[1] for r in results]
     # in-process: TERM (what a reload sends to the old workers) at every system-call boundary of the real sync loop
